@@ -33,6 +33,24 @@ pub fn jesc(s: &str) -> String {
 }
 
 /// does this successful op take the history out of the E3 envelope (trusted owner configuration)?
+/// the configuration fields of an observation line (hub params and config, reward / dispatcher /
+/// registry configuration, token minters)
+fn cfg_part(obs: &str) -> String {
+    let mut out = vec![];
+    for t in obs.split(' ') {
+        if t.starts_with("params=") || t.starts_with("cfg=") || t.starts_with("disp=") {
+            out.push(t.to_string());
+        } else if t.starts_with("rw=") {
+            out.push(t.split(";h[").next().unwrap_or("").split(';').skip(1).collect::<Vec<_>>().join(";"));
+        } else if t.starts_with("reg=") {
+            out.push(t.split(';').next().unwrap_or("").to_string());
+        } else if t.starts_with("bsei=") || t.starts_with("stsei=") {
+            out.push(t.split(';').next().unwrap_or("").split(',').nth(1).unwrap_or("").to_string());
+        }
+    }
+    out.join(" ")
+}
+
 fn leaves_envelope(op: &Op) -> bool {
     match op {
         Op::Tx { call, .. } => match call {
@@ -83,6 +101,11 @@ pub struct Runner {
     /// C09 ghost: chain time of the last undelegation (or of the hub's instantiation), from the
     /// history of operations — what `last_unbonded_time` must be
     pub ghost_last_und: Option<u64>,
+    /// C20 / C05 ghost: (epoch, unbonding, peg fee, threshold) as the *history* of successful
+    /// instantiate / UpdateParams messages determines them (threshold capped at 1, an omitted field
+    /// keeps its value), independent of what the hub stores
+    pub ghost_params: Option<(u64, u64, u128, u128)>,
+    pub saved_params: Option<(u64, u64, u128, u128)>,
     /// E1 (magnitudes ≤ 10^18) has been left in this history
     pub e1_broken: bool,
     pub deep: bool,
@@ -108,6 +131,8 @@ impl Runner {
             e2_ok: true,
             ghost_allow: BTreeMap::new(),
             ghost_last_und: None,
+            ghost_params: None,
+            saved_params: None,
             e1_broken: false,
             deep: std::env::var("KRP_DEEP").map(|v| v == "1").unwrap_or(false),
         }
@@ -131,16 +156,19 @@ impl Runner {
             self.e2_ok = true;
             self.ghost_allow.clear();
             self.ghost_last_und = None;
+            self.ghost_params = None;
             self.history += 1;
             self.bsei_init_with_balances = false;
             self.e1_broken = false;
             return "ok | reset".to_string();
         }
         if let Op::Save = op {
+            self.saved_params = self.ghost_params;
             self.saved = Some((self.chain.clone(), self.envelope, self.bsei_init_with_balances, self.ghost_roles.clone(), self.ghost_recorded, self.ghost_completion.clone(), self.e2_ok, self.ghost_allow.clone(), self.ghost_last_und));
             return "ok | save".to_string();
         }
         if let Op::Restore = op {
+            self.ghost_params = self.saved_params;
             if let Some((c, e, b, g, gr, gc, e2, ga, glu)) = self.saved.clone() {
                 self.ghost_last_und = glu;
                 self.ghost_allow = ga;
@@ -222,6 +250,31 @@ impl Runner {
                     // cross-contract invariants are no longer meaningful for the rest of it
                     self.envelope = false;
                 }
+            }
+        }
+        // C20 / C05 ghost parameters
+        if r.ok {
+            match op {
+                Op::Inst(Inst::Hub { epoch, unbonding, fee, thr, .. }) => {
+                    self.ghost_params = Some((*epoch, *unbonding, *fee, (*thr).min(D)));
+                }
+                Op::Tx { target, call: Call::Hub(HubMsg::UParams(e, u, f, t, _, _)), .. } if *target == HUB => {
+                    if let Some(g) = self.ghost_params.as_mut() {
+                        if let Some(x) = e {
+                            g.0 = *x;
+                        }
+                        if let Some(x) = u {
+                            g.1 = *x;
+                        }
+                        if let Some(x) = f {
+                            g.2 = *x;
+                        }
+                        if let Some(x) = t {
+                            g.3 = (*x).min(D);
+                        }
+                    }
+                }
+                _ => {}
             }
         }
         // C10 ghost roles
@@ -311,6 +364,16 @@ impl Runner {
                 envelope: self.envelope && !self.bsei_init_with_balances && !self.e1_broken && self.chain.withdraw_addr == DISP,
             };
             let cx_envelope = cx.envelope;
+            if let Some(g) = self.ghost_params {
+                let stored = (post.epoch, post.unbonding, post.fee, post.thr);
+                if stored != g && !self.e1_broken {
+                    let what = format!("{}: the hub stores (epoch, unbonding, fee, threshold) = {:?}; the successful instantiate / UpdateParams messages so far give {:?}", kind, stored, g);
+                    self.violations.push((self.history, self.line_no, Violation { prop: "C20", class: "stored-parameters-ne-history".into(), detail: what.clone() }));
+                    if stored.2 != g.2 || stored.3 != g.3 {
+                        self.violations.push((self.history, self.line_no, Violation { prop: "C05", class: "fee-parameters-ne-history".into(), detail: what }));
+                    }
+                }
+            }
             if !self.e1_broken {
                 for vi in check_step(&cx) {
                     self.violations.push((self.history, self.line_no, vi));
@@ -422,7 +485,9 @@ impl Runner {
                     }
                 }
             }
-            if r.ok && self.genesis_done && leaves_envelope(op) {
+            // a configuration message leaves E3 only if it changed the configuration: the owner
+            // re-sending the values a contract already has must be a no-op
+            if r.ok && self.genesis_done && leaves_envelope(op) && cfg_part(&pre_chain.observe()) != cfg_part(&self.chain.observe()) {
                 self.envelope = false;
             }
         }
